@@ -38,7 +38,7 @@ THEOREMS: list[str] = [
     "IrVerif.Passes.C05_clear_meta",
     "IrVerif.Passes.C05_name_fix",
     "IrVerif.Passes.C05_lift_const",
-    "IrVerif.Passes.C05_dedup_partial",
+    "IrVerif.Passes.C05_dedup",
     "IrVerif.Passes.C05_output_fix",
     "IrVerif.Passes.C05_compose",
     "IrVerif.Passes.C05_lift_sub_inits",
@@ -56,15 +56,14 @@ ASSUMPTIONS = [
     "environment; names, types, shapes, metadata, opset imports are not part of the modelled IR; a model-local "
     "function body is a graph and a call site is an operator interpreted by `sem` (the link call = body is not "
     "formalised: InlinePass / RemoveUnusedFunctionsPass are differential only)",
-    "hypotheses of the theorems (validModel: SSA, outputs bound in their graph, topologically ordered, scoped; "
-    "dedupFaithfulG for DeduplicateInitializers) are evaluated by the driver on every generated case: counted as "
+    "hypotheses of the theorems (validModel: SSA, outputs bound in their graph, topologically ordered, scoped) "
+    "are evaluated by the driver on every generated case: counted as "
     "corr_valid / corr_chain_ok / corr_assumption_unmet in the distribution",
     "no Lean model (differential only): AddDefaultAttributesPass, ShapeInferencePass, CheckerPass (ONNX C++ "
     "schemas), InlinePass, RemoveUnusedFunctionsPass, RemoveUnusedOpsetsPass, and the schema-driven optional-output "
     "trimming inside RemoveUnusedNodesPass (the correspondence runs that pass with _remove_unused_optional_outputs "
     "disabled; the oracle runs the real pass)",
-    "not compared with the model (counted as corr_skipped): DeduplicateHashedInitializers with string initializers "
-    "(digest taken over object addresses), "
+    "not compared with the model (counted as corr_skipped): "
     "RemoveUnusedNodes after an earlier pass of the same sequence left uses registered by detached subgraph nodes",
     "the second input set of every model also supplies a value (different from the default) for every graph input "
     "that is backed by an initializer; it is dropped for models in which that input no longer exists "
@@ -431,9 +430,6 @@ def correspond(part, case_id, ir_model_before_factory, seq_names):
             # Value.uses() still lists nodes of subgraphs of nodes removed by an earlier pass of this
             # sequence; that history is not part of the encoded model
             skip = "dce_ghost_uses_from_earlier_pass"
-        if lean_name == "dedup:4294967296" and _has_string_init(model):
-            # the digest of a string tensor is taken over object addresses: not modelled
-            skip = "hashed_dedup_string_initializer"
         try:
             _run_real(name, model)
         except Exception as e:  # noqa: BLE001 - the oracle reports raising passes; nothing to compare
